@@ -134,9 +134,12 @@ func (v *additionalPropertiesValidator) feedLiteral(jsonLexeme lexeme.LexEvent) 
 	panic(errors.ErrUnexpectedLexInLiteralValidator)
 }
 
-func (*additionalPropertiesValidator) feedNotAllowed(lex lexeme.LexEvent) ([]validator, bool) {
+// feedNotAllowed is fed with the beginning of the value of the additional
+// property, the error is about its key, which the object validator remembers.
+func (v *additionalPropertiesValidator) feedNotAllowed(lexeme.LexEvent) ([]validator, bool) {
+	keyLex := v.parentValidator.(*objectValidator).lastFoundKeyLex
 	panic(lexeme.NewLexEventError(
-		lex,
-		errors.Format(errors.ErrSchemaDoesNotSupportKey, lex.Value().Unquote().String())),
+		keyLex,
+		errors.Format(errors.ErrSchemaDoesNotSupportKey, keyLex.Value().Unquote().String())),
 	)
 }
